@@ -208,7 +208,7 @@ fn raw_core(which: Which, case: &RawCase) -> CaseOutcome
                     let (ds, _) = crate::model_check::check_edit(&r, new);
                     for d in ds
                     {
-                        if d.signature.starts_with("edit-touched-") || d.signature.starts_with("decoy-edited")
+                        if d.signature.starts_with("edit-touched-") || d.signature.starts_with("decoy-edited") || d.signature == "non-literal-target-reference-misplaced"
                         {
                             devs.push(dev(&d.signature, format!("{}: {}", rel, d.message)));
                         }
